@@ -66,8 +66,8 @@ def run_faults(args, out_path, stdin_path=None, case_timeout=20, mem_gb=2):
                        "whole_outcome": "", "whole_digest": "", "digest": ""})
         start_at = last_start["n"] + 1
         restarts += 1
-        if restarts > 400:
-            raise ToolError("fault runner keeps dying (more than 400 restarts)")
+        if restarts > 20000:
+            raise ToolError("fault runner keeps dying (more than 20000 restarts)")
 
 
 def abort_site(stderr_text):
@@ -125,10 +125,10 @@ def run(pid, tier, seed, replay=None):
 
     step = 3 if quick else 1
     all_events = []
-    plan = [(["--kind", "truncate", "--step", 2 if quick else 1], None),
+    plan = [(["--kind", "truncate", "--step", 1], None),
             (["--kind", "schedule"], sched_path),
-            (["--kind", "sinkfail", "--step", 4 if quick else 1], None),
-            (["--kind", "mutate", "--step", 6 if quick else 1], None),
+            (["--kind", "sinkfail", "--step", 2 if quick else 1], None),
+            (["--kind", "mutate", "--step", 1, "--u32-step", 4 if quick else 1], None),
             (["--kind", "depth", "--depths", "10,100,1000" if quick else "10,100,1000,10000,100000"], None),
             (["--kind", "random", "--seed", seed, "--count", 3000 if quick else 200000], None)]
     restarts_total = 0
